@@ -437,9 +437,101 @@ def r4(ctx):
 
 # =============================================================================== driver
 
+# =============================================================================== R7
+
+def run_str_pred(fn, data, maxsteps=4000):
+    """concrete evaluation of a call-free (apart from the <ctype.h> table) predicate over a NUL-terminated string"""
+    import c01
+    data = bytes(data) + b'\0'
+    mem = {}; regs = {}
+    for (t, name) in fn.params: regs[name] = ('p', 0)
+    def val(v):
+        if v[0] == 'int': return v[1]
+        if v[0] == 'null': return 0
+        if v[0] == 'reg': return regs[v[1]]
+        raise KeyError(v)
+    blk = fn.entry; prev = None; steps = 0
+    while True:
+        nxt = None
+        for x in blk.ins:
+            steps += 1
+            if steps > maxsteps: raise RuntimeError('evaluation limit')
+            op = x.op
+            if op == 'alloca': regs[x.res] = ('slot', x.res)
+            elif op == 'store': mem[val(x.ops[1])] = val(x.ops[0])
+            elif op == 'load':
+                a = val(x.ops[0])
+                if a[0] == 'slot': regs[x.res] = mem[a]
+                elif a[0] == 'p': regs[x.res] = data[a[1]] if 0 <= a[1] < len(data) else 0
+                elif a[0] == 'ctab': regs[x.res] = ('ctabp',)
+                elif a[0] == 'cent': regs[x.res] = c01._ctype_word(a[1])
+                else: raise RuntimeError('load of %r' % (a,))
+            elif op == 'getelementptr':
+                b = val(x.ops[0]); k = val(x.ops[-1])
+                if isinstance(k, int) and k >= 1 << 63: k -= 1 << 64
+                if b[0] == 'p': regs[x.res] = ('p', b[1] + k)
+                elif b[0] == 'ctabp': regs[x.res] = ('cent', k)
+                else: raise RuntimeError('gep on %r' % (b,))
+            elif op in ('zext', 'sext', 'trunc', 'bitcast'):
+                v = val(x.ops[0])
+                if op == 'sext' and isinstance(v, int) and x.srcty is not None and getattr(x.srcty, 'a', None) == 8 and v >= 128: v -= 256
+                if op == 'trunc' and isinstance(v, int) and x.ty is not None and x.ty.k == 'int': v &= (1 << x.ty.a) - 1
+                regs[x.res] = v
+            elif op in ('and', 'or', 'xor', 'add', 'sub'):
+                a, b = val(x.ops[0]), val(x.ops[1])
+                regs[x.res] = {'and': a & b, 'or': a | b, 'xor': a ^ b, 'add': a + b, 'sub': a - b}[op]
+            elif op == 'icmp':
+                a, b = val(x.ops[0]), val(x.ops[1])
+                regs[x.res] = int({'eq': a == b, 'ne': a != b, 'slt': a < b, 'sle': a <= b, 'sgt': a > b, 'sge': a >= b, 'ult': a < b, 'ule': a <= b, 'ugt': a > b, 'uge': a >= b}[x.pred])
+            elif op in ('call', 'invoke'):
+                if x.callee == '__ctype_b_loc': regs[x.res] = ('ctab',)
+                elif x.callee in c01.CTYPE_FUNCS:
+                    c = val(x.ops[0]); regs[x.res] = int(bool(0 <= c < 128 and lex.POSIX[c01.CTYPE_FUNCS[x.callee]](c)))
+                elif x.callee == 'isascii': regs[x.res] = int(0 <= val(x.ops[0]) < 128)
+                else: raise RuntimeError('call of %s' % x.callee)
+            elif op == 'phi':
+                for v, lab in zip(x.ops, x.cases):
+                    if prev is not None and lab == prev.name: regs[x.res] = val(v)
+            elif op == 'br':
+                if not x.ops: nxt = fn.bmap[x.targets[0]]
+                else: nxt = fn.bmap[x.targets[0] if (val(x.ops[0]) & 1) else x.targets[1]]
+            elif op == 'ret':
+                return val(x.ops[0]) if x.ops else None
+            else: raise RuntimeError('instruction %s' % op)
+        if nxt is None: raise RuntimeError('fell off block %s' % blk.name)
+        prev = blk; blk = nxt
+
+CASE_WORDS = [b'REJECT', b'reject', b'Reject', b'REJECt', b'rEJECT', b'R', b'r', b'YYMORE', b'yymore', b'yyMore', b'A1', b'a1', b'\xc9', b'AB\xe9']
+
+def r7_case(ctx, rule='C07.R7'):
+    """R7: the case tests behind the REJECT / yymore detection.  scan.l decides that an action uses REJECT when the word is
+    all upper case and yyreject()/yymore() when it is all lower case; all_upper() / all_lower() are evaluated on the IR for a
+    list of words: all_upper(w) holds iff every byte of w is an ASCII capital, all_lower(w) iff every byte is an ASCII small
+    letter.  (A word such as `reject` in `int reject = 1;` must not switch a scanner to REJECT tables: that silently
+    disables the unmatched-rule warnings and the -Cf/-CF refusal logic.)"""
+    rep = ctx.rep; prog = ctx.flex
+    n = 0
+    for name, want in (('all_upper', lambda w: all(65 <= c <= 90 for c in w)), ('all_lower', lambda w: all(97 <= c <= 122 for c in w))):
+        f = prog.fn(name)
+        if f is None: rep.broken('%s() not found in flex' % name)
+        bad = None
+        for w in CASE_WORDS:
+            try: got = run_str_pred(f, w)
+            except Exception as e: rep.broken('%s: %s(%r) not evaluable: %s' % (rule, name, w, e))
+            if bool(got) != want(w): bad = (w, got); break
+        n += 1
+        if bad:
+            rep.fail(rule, '%s:misc.c:%s:case-test' % (rule, name), fwhere(f), '%s(%r) returns %s: the word is %s, so flex %s' % (
+                name, bad[0].decode('latin1'), bad[1], 'not all upper case' if name == 'all_upper' else 'not all lower case',
+                'takes an identifier such as `reject` for REJECT (or misses REJECT)' if name == 'all_upper' else 'mis-detects yyreject()/yymore()'),
+                replay_input='a { int reject = 1; }')
+        else:
+            rep.ok(rule, '%s(): %d words classified as documented' % (name, len(CASE_WORDS)))
+    return n
+
 def run(ctx):
     rep = ctx.rep
-    r1(ctx); r2(ctx); r4(ctx); r3(ctx); r6(ctx)
+    r1(ctx); r2(ctx); r4(ctx); r3(ctx); r6(ctx); r7_case(ctx)
     # R5: the accepting lists REJECT walks (yy_acclist of the REJECT builds of the language probes) hold, for every reachable
     # state, exactly the rules that match there, once each, in rule order - read from the emitted tables, over all inputs
     import tbl
@@ -449,6 +541,7 @@ def run(ctx):
     rep.floor('C07.R3', 15, 'one per REJECT variant compiled to IR (19 today, all five back ends)')
     rep.floor('C07.R6', 1, 'state-stack pushes in yylex, yy_get_previous_state, yy_try_NUL_trans of every REJECT variant')
     rep.floor('C07.R4', 2, 'REJECT and yyreject() detection rules of scan.l')
+    rep.floor('C07.R7', 2, 'all_upper, all_lower')
     rep.floor('C07.R5', 10, 'REJECT builds of the language probes')
     rep.undecided += ['the order in which a generated scanner visits (rule, length) alternatives at run time, yytext/yyleng per visit',
                       'find_rule / yy_state_buf walk in the skeletons (the pops and the yy_lp cursor; the push shape is R6)',
